@@ -185,6 +185,32 @@ fn round_quot(
     quot
 }
 
+// Like `round_quot`, but returns `None` if the rounded quotient would exceed
+// i128::MAX.
+// Pre-condition: 0 < divisor and rem < divisor
+#[inline]
+fn checked_round_quot(
+    quot: i128,
+    rem: u128,
+    divisor: u128,
+    mode: Option<RoundingMode>,
+) -> Option<i128> {
+    if quot == i128::MAX && rem != 0 {
+        // quot + 1 is not representable. Whether a quotient is rounded up
+        // depends - besides on rem, divisor and mode - only on its sign, its
+        // parity and its remainder modulo 5, and these are the same for
+        // quot - 10.
+        let shifted = quot - 10;
+        if round_quot(shifted, rem, divisor, mode) == shifted {
+            Some(quot)
+        } else {
+            None
+        }
+    } else {
+        Some(round_quot(quot, rem, divisor, mode))
+    }
+}
+
 /// Divide 'divident' by 'divisor' and round result according to 'mode'.
 #[doc(hidden)]
 #[must_use]
@@ -218,7 +244,7 @@ pub fn i128_shifted_div_rounded(
     }
     let (quot, rem) = i128_shifted_div_mod_floor(divident, p, divisor)?;
     // div_mod_floor with divisor > 0 => rem >= 0
-    Some(round_quot(quot, rem as u128, divisor as u128, mode))
+    checked_round_quot(quot, rem as u128, divisor as u128, mode)
 }
 
 /// Divide 'x * y' by '10^p' and round result according to 'mode'.
@@ -233,7 +259,7 @@ pub fn i128_mul_div_ten_pow_rounded(
     let divisor = ten_pow(p);
     let (quot, rem) = i256_div_mod_floor(x, y, divisor)?;
     // div_mod_floor with divisor > 0 => rem >= 0
-    Some(round_quot(quot, rem as u128, divisor as u128, mode))
+    checked_round_quot(quot, rem as u128, divisor as u128, mode)
 }
 
 #[cfg(feature = "std")]
